@@ -21,7 +21,7 @@ func init() {
 	register(&propDef{
 		ID: "C01",
 		Meta: propMeta{
-			Explanation: "Decides structural necessary conditions (nothing is executed): (R01a) requested-digest plumbing: every registered Signer.Sign function (or the helpers of its own package it calls) reads SignOpts.Hash, and no crypto.Hash constant is passed as an argument or stored as the digest in those functions outside a frozen, reasoned table of format-mandated digests; the server parses the digest parameter through x509tools.HashByName, refuses an unknown name, and hands exactly that value to signinit.Init, which stores it in SignOpts.Hash and in the audit record; the remote command sends the digest name it validated; (R01b) refusal before signing: serveSign calls through Signer.Sign only after the signer lookup, the digest lookup and the flag parsing succeeded; signinit.Init refuses a key without the certificate kind the signer needs before it builds SignOpts; both commands refuse a type without a Sign function before opening the output; (R01c) the standalone and the remote sign command perform the same client-side stages in the same order on every success path (type detection, flags, open for patching, optional is-signed probe and rewind, transform, sign or remote call, apply, fix-up), and both apply the result through the same Transformer; (R01d) every signer that builds a PKCS#7 signature returns it through pkcs9 TimestampAndMarshal / the builder's self-verification (shared with C16 R16e); (R01e) side data: the extended MSI digest the client stores next to the signature is nil or PrehashMSI(this file, SignOpts.Hash) and nothing else; the text size a PowerShell digest reports (the patch offset) is a sum of lengths of lines read from the input and depends on no other call; no memory handed to a sync.Pool is also returned uncopied (zero instances, positive control testdata/ctl/poolesc). (R01f) every field of the OnePassSignature packet written in front of an inline PGP message (type, hash, key algorithm, key id) is copied from the same field of the signature packet it announces; (R01g) in LoadTokenCertificates the ReadFile of the configured certificate path is not control-dependent on the certificate blob the token returned, so the configured certificate wins; (R01h) the in-place patch path truncates to the end of its last patch (shared with C08 R08g): re-signing with a shorter signature yields a file relic's verifier accepts. (R01i) xmldsig.Sign calls RemoveElements(\"Signature\") before hashCanon, so re-signing a signed manifest digests the document without the old signature; (R01j) the packet header written in front of an inline PGP literal switches length forms at 192 and 8384, so relic's own reader (and every other) parses messages of every size. (R01k) no function writes an element through a slice header it loaded from a field of an object before calling something on that object that may assign the field (append-and-store in the callee, followed to depth 3 with constant boolean arguments applied): the chain addStream threads through the sector table lands in the table the file is written from; positive control ctl/stale. (R01l) signdeb.Sign skips every _gpg* member when it lists what the new signature covers (C08 R08b).",
+			Explanation: "Decides structural necessary conditions (nothing is executed): (R01a) requested-digest plumbing: every registered Signer.Sign function (or the helpers of its own package it calls) reads SignOpts.Hash, and no crypto.Hash constant is passed as an argument, returned, stored or merged into a variable in those functions outside a frozen, reasoned table of format-mandated digests; the server parses the digest parameter through x509tools.HashByName, refuses an unknown name, and hands exactly that value to signinit.Init, which stores it in SignOpts.Hash and in the audit record; the remote command sends the digest name it validated; (R01b) refusal before signing: serveSign calls through Signer.Sign only after the signer lookup, the digest lookup and the flag parsing succeeded; signinit.Init refuses a key without the certificate kind the signer needs before it builds SignOpts; both commands refuse a type without a Sign function before opening the output; (R01c) the standalone and the remote sign command perform the same client-side stages in the same order on every success path (type detection, flags, open for patching, optional is-signed probe and rewind, transform, sign or remote call, apply, fix-up), and both apply the result through the same Transformer; (R01d) every signer that builds a PKCS#7 signature returns it through pkcs9 TimestampAndMarshal / the builder's self-verification (shared with C16 R16e); (R01e) side data: the extended MSI digest the client stores next to the signature is nil or PrehashMSI(this file, SignOpts.Hash) and nothing else; the text size a PowerShell digest reports (the patch offset) is a sum of lengths of lines read from the input and depends on no other call; no memory handed to a sync.Pool is also returned uncopied (zero instances, positive control testdata/ctl/poolesc). (R01f) every field of the OnePassSignature packet written in front of an inline PGP message (type, hash, key algorithm, key id) is copied from the same field of the signature packet it announces; (R01g) in LoadTokenCertificates the ReadFile of the configured certificate path is not control-dependent on the certificate blob the token returned, so the configured certificate wins; (R01h) the in-place patch path truncates to the end of its last patch (shared with C08 R08g): re-signing with a shorter signature yields a file relic's verifier accepts. (R01i) xmldsig.Sign calls RemoveElements(\"Signature\") before hashCanon, so re-signing a signed manifest digests the document without the old signature; (R01j) the packet header written in front of an inline PGP literal switches length forms at 192 and 8384, so relic's own reader (and every other) parses messages of every size. (R01k) no function writes an element through a slice header it loaded from a field of an object before calling something on that object that may assign the field (append-and-store in the callee, followed to depth 3 with constant boolean arguments applied): the chain addStream threads through the sector table lands in the table the file is written from; positive control ctl/stale. (R01m) the CFB rules of C03 R03c and C18 R18e: AddFile removes exactly the name it adds, DeleteFile frees only the matched stream's chain, and every table choice uses one cutoff predicate, so a re-signed MSI stays readable; (R01n) the span removed for an old _gpg member is even (C03 R03h). (R01l) signdeb.Sign skips every _gpg* member when it lists what the new signature covers (C08 R08b).",
 			NotDecided:  "that a produced artifact verifies; correctness of digests and offsets for any input layout; key-type coverage (RSA/ECDSA/PGP) of each signer; equality of server-side and standalone output bytes.",
 			Assumptions: []string{"the signer registry consists of the signers.Signer literals passed to signers.Register"},
 		},
@@ -45,6 +45,9 @@ func runC01(c *Ctx) {
 	c01Round2(c)
 }
 
+// c01RuleDigest: the rule id c01Digest reports under (R01a; C06 shares it as R06h).
+var c01RuleDigest = "R01a"
+
 func c01Digest(c *Ctx) {
 	p := c.P
 	reg := p.registeredSignerFuncs("Sign")
@@ -58,7 +61,7 @@ func c01Digest(c *Ctx) {
 	}
 	sort.Slice(ents, func(i, j int) bool { return ents[i].name < ents[j].name })
 	if len(ents) < 18 {
-		c.Undecided("R01a", "signer registry", "-", fmt.Sprintf("only %d Signer.Sign registrations resolved (18+ confirmed by reading)", len(ents)))
+		c.Undecided(c01RuleDigest, "signer registry", "-", fmt.Sprintf("only %d Signer.Sign registrations resolved (18+ confirmed by reading)", len(ents)))
 	}
 	for _, e := range ents {
 		c.Analysed(p.FName(e.fn))
@@ -102,7 +105,7 @@ func c01Digest(c *Ctx) {
 				}
 			}
 		}
-		c.Check(reads, "R01a", "signer "+e.name+" reads the requested digest", p.Pos(e.fn.Pos()), "SignOpts.Hash is read", "the Sign function of signer "+e.name+" (and the helpers of its package) never reads SignOpts.Hash: whatever digest the caller requests, the signature is made with a built-in one, and the audit record names a digest that was not used")
+		c.Check(reads, c01RuleDigest, "signer "+e.name+" reads the requested digest", p.Pos(e.fn.Pos()), "SignOpts.Hash is read", "the Sign function of signer "+e.name+" (and the helpers of its package) never reads SignOpts.Hash: whatever digest the caller requests, the signature is made with a built-in one, and the audit record names a digest that was not used")
 		// constants
 		n := 0
 		for _, f := range scope {
@@ -123,9 +126,42 @@ func c01Digest(c *Ctx) {
 						_ = ai
 						why, ok := c01FixedDigest[p.FName(f)]
 						if ok {
-							c.PassTrivial("R01a", key, p.Pos(ci.Pos()), "exception: "+why)
+							c.PassTrivial(c01RuleDigest, key, p.Pos(ci.Pos()), "exception: "+why)
 						} else {
-							c.Fail("R01a", key, p.Pos(ci.Pos()), fmt.Sprintf("the digest %s is hard-coded in a call to %s on the signing path of signer %s instead of the requested SignOpts.Hash", k.Value, p.describeCall(ci), e.name))
+							c.Fail(c01RuleDigest, key, p.Pos(ci.Pos()), fmt.Sprintf("the digest %s is hard-coded in a call to %s on the signing path of signer %s instead of the requested SignOpts.Hash", k.Value, p.describeCall(ci), e.name))
+						}
+					}
+				}
+			}
+		}
+		// a digest constant that is returned, stored or merged into a variable replaces the requested one
+		// just as well as one that is passed
+		for _, f := range scope {
+			for _, b := range f.Blocks {
+				for _, in := range b.Instrs {
+					var ops []ssa.Value
+					what := ""
+					switch x := in.(type) {
+					case *ssa.Return:
+						ops, what = x.Results, "returned"
+					case *ssa.Store:
+						ops, what = []ssa.Value{x.Val}, "stored"
+					case *ssa.Phi:
+						ops, what = x.Edges, "assigned to a variable"
+					default:
+						continue
+					}
+					for _, a := range ops {
+						k, isK := a.(*ssa.Const)
+						if !isK || !isCryptoHash(k.Type()) {
+							continue
+						}
+						n++
+						key := fmt.Sprintf("%s has a constant digest %s#%d", p.FName(f), strings.Fields(what)[0], n)
+						if why, ok := c01FixedDigest[p.FName(f)]; ok {
+							c.PassTrivial(c01RuleDigest, key, p.Pos(in.Pos()), "exception: "+why)
+						} else {
+							c.Fail(c01RuleDigest, key, p.Pos(in.Pos()), fmt.Sprintf("the digest constant %s is %s on the signing path of signer %s: where it replaces the requested SignOpts.Hash the signature is made with another digest than the one the caller asked for and the audit record names", k.Value, what, e.name))
 						}
 					}
 				}
@@ -135,7 +171,7 @@ func c01Digest(c *Ctx) {
 	// server: digest parameter -> HashByName -> refusal -> Init
 	ss := p.Func("server.(*Server).serveSign")
 	if ss == nil {
-		c.Undecided("R01a", "serveSign", "-", "function not found")
+		c.Undecided(c01RuleDigest, "serveSign", "-", "function not found")
 	} else {
 		c.Analysed(p.FName(ss))
 		hb := p.callsIn(ss, "lib/x509tools.HashByName")
@@ -154,10 +190,10 @@ func c01Digest(c *Ctx) {
 			}
 			ok = okDefault && okParsed
 		}
-		c.Check(ok, "R01a", "serveSign hands the parsed digest (or the default) to Init", p.Pos(ss.Pos()), "", "the digest given to signinit.Init is not the value parsed from the request's digest parameter")
+		c.Check(ok, c01RuleDigest, "serveSign hands the parsed digest (or the default) to Init", p.Pos(ss.Pos()), "", "the digest given to signinit.Init is not the value parsed from the request's digest parameter")
 	}
 	if in := p.Func("internal/signinit.Init"); in == nil {
-		c.Undecided("R01a", "signinit.Init", "-", "function not found")
+		c.Undecided(c01RuleDigest, "signinit.Init", "-", "function not found")
 	} else {
 		c.Analysed(p.FName(in))
 		var hp *ssa.Parameter
@@ -183,10 +219,10 @@ func c01Digest(c *Ctx) {
 				}
 			}
 		}
-		c.Check(stored && audited, "R01a", "Init puts the requested digest into SignOpts and the audit record", p.Pos(in.Pos()), "", "signinit.Init does not store its hash argument in SignOpts.Hash and audit.New: signer and audit record can disagree about the digest")
+		c.Check(stored && audited, c01RuleDigest, "Init puts the requested digest into SignOpts and the audit record", p.Pos(in.Pos()), "", "signinit.Init does not store its hash argument in SignOpts.Hash and audit.New: signer and audit record can disagree about the digest")
 	}
 	if sd := p.Func("cmdline/remotecmd.setDigestQueryParam"); sd == nil {
-		c.Undecided("R01a", "setDigestQueryParam", "-", "function not found")
+		c.Undecided(c01RuleDigest, "setDigestQueryParam", "-", "function not found")
 	} else {
 		c.Analysed(p.FName(sd))
 		adds := 0
@@ -197,7 +233,7 @@ func c01Digest(c *Ctx) {
 		}
 		gd := p.callsIn(sd, "cmdline/shared.GetDigest")
 		ok := adds == 1 && len(gd) == 1
-		c.Check(ok, "R01a", "remote command sends the digest name it validated", p.Pos(sd.Pos()), "", "the remote sign command does not send the --digest value (or sends it without validating it locally)")
+		c.Check(ok, c01RuleDigest, "remote command sends the digest name it validated", p.Pos(sd.Pos()), "", "the remote sign command does not send the --digest value (or sends it without validating it locally)")
 	}
 }
 
@@ -568,7 +604,17 @@ func c01SideData(c *Ctx) {
 					if n := p.calleeName(x.Common()); n == "lib/authenticode.readLine" {
 						fromInput = true
 					} else {
-						foreign = n
+						// a call all of whose arguments are constants yields the same value for every
+						// input (the encoded form of the line ending): not a dependence on the input
+						constArgs := len(x.Common().Args) > 0
+						for _, a := range x.Common().Args {
+							if _, isK := a.(*ssa.Const); !isK {
+								constArgs = false
+							}
+						}
+						if !constArgs {
+							foreign = n
+						}
 					}
 				}
 			}
